@@ -752,6 +752,75 @@ pub enum Target {
     SliceHeader(usize, usize),
     /// content id in the header of block `.0`
     BlockContentId(usize),
+    /// the whole encoding number `.0` (data series first, then tags) replaced by a well-formed hostile encoding
+    /// (`ENCODING_TEMPLATES[which]`)
+    ReplaceEncoding(usize),
+    /// value number `.1` of the integer data series stored in the raw external block `.0` (a sequence of ITF8s)
+    SeriesValue(usize, usize),
+}
+
+pub const ENCODING_TEMPLATES: [&str; 14] = [
+    "NULL",
+    "EXTERNAL(id that does not exist)",
+    "GOLOMB(0,1)",
+    "HUFFMAN(empty alphabet)",
+    "HUFFMAN(1 symbol)",
+    "HUFFMAN(2 symbols, bit lengths 1,1)",
+    "HUFFMAN(2 symbols, bit lengths 1,40)",
+    "BYTE_ARRAY_LEN(EXTERNAL,EXTERNAL)",
+    "BYTE_ARRAY_STOP(0,id)",
+    "BETA(0,0 bits)",
+    "BETA(i32::MIN,33 bits)",
+    "SUBEXP(0,0)",
+    "GOLOMB_RICE(0,0)",
+    "GAMMA(1)",
+];
+
+fn encoding_template(which: usize, ids: &[i32]) -> Enc {
+    let other = ids.first().copied().unwrap_or(1);
+    let missing = ids.iter().copied().max().unwrap_or(0).saturating_add(1000);
+    let e = |codec: i32, params: Params| Enc { codec, params, len_override: None };
+    let huff = |a: Vec<i32>, l: Vec<i32>| Params::Huffman { alphabet: a, lens: l, alphabet_count: None, lens_count: None };
+    match which {
+        0 => e(0, Params::Ints(vec![])),
+        1 => e(1, Params::Ints(vec![missing])),
+        2 => e(2, Params::Ints(vec![0, 1])),
+        3 => e(3, huff(vec![], vec![])),
+        4 => e(3, huff(vec![0], vec![0])),
+        5 => e(3, huff(vec![0, 1], vec![1, 1])),
+        6 => e(3, huff(vec![0, 1], vec![1, 40])),
+        7 => e(4, Params::ByteArrayLen(Box::new(e(1, Params::Ints(vec![other]))), Box::new(e(1, Params::Ints(vec![other]))))),
+        8 => e(5, Params::ByteArrayStop { stop: 0, id: other }),
+        9 => e(6, Params::Ints(vec![0, 0])),
+        10 => e(6, Params::Ints(vec![i32::MIN, 33])),
+        11 => e(7, Params::Ints(vec![0, 0])),
+        12 => e(8, Params::Ints(vec![0, 0])),
+        _ => e(9, Params::Ints(vec![1])),
+    }
+}
+
+const INTEGER_SERIES: [&[u8; 2]; 20] =
+    [b"BF", b"CF", b"RI", b"RL", b"AP", b"RG", b"MF", b"NS", b"NP", b"TS", b"NF", b"TL", b"FN", b"FP", b"DL", b"RS", b"PD", b"HC", b"MQ", b"TC"];
+
+/// External block content ids that hold an integer data series (EXTERNAL encoding in the compression header).
+fn integer_series_ids(h: &CompHeader) -> Vec<(i32, String)> {
+    h.ds.iter()
+        .filter(|(k, _)| INTEGER_SERIES.iter().any(|s| &s[..] == &k[..]))
+        .filter_map(|(k, e)| match (&e.params, e.codec) {
+            (Params::Ints(v), 1) if v.len() == 1 => Some((v[0], String::from_utf8_lossy(k).into_owned())),
+            _ => None,
+        })
+        .collect()
+}
+
+fn itf8_offsets(b: &[u8]) -> Option<Vec<usize>> {
+    let mut offs = vec![];
+    let mut p = 0;
+    while p < b.len() {
+        offs.push(p);
+        p += read_itf8(b, p)?.1;
+    }
+    Some(offs)
 }
 
 pub const STRUCT_VALUES: [&str; 14] =
@@ -809,6 +878,23 @@ pub fn container_targets(c: &Cram, ci: usize) -> Vec<(Target, bool)> {
         }
     }
     v.extend((0..ct.blocks.len()).map(|b| (Target::BlockContentId(b), true)));
+    // record layer: values of the integer data series held in raw external blocks; whole encodings replaced
+    if let Some(h) = ct.blocks.first().filter(|b| b.method == 0 && b.ctype == 1).and_then(|b| parse_comp_header(&b.data)) {
+        let series = integer_series_ids(&h);
+        for (bi, b) in ct.blocks.iter().enumerate() {
+            if b.ctype == 4 && b.method == 0 && series.iter().any(|s| s.0 == b.cid) {
+                if let Some(offs) = itf8_offsets(&b.data) {
+                    // the first values and the last ones of the series
+                    let n = offs.len();
+                    let idx: Vec<usize> = if n <= 10 { (0..n).collect() } else { (0..6).chain(n - 4..n).collect() };
+                    v.extend(idx.into_iter().map(|i| (Target::SeriesValue(bi, i), false)));
+                }
+            }
+        }
+        if serialise_comp_header(&h) == ct.blocks[0].data {
+            v.extend((0..h.ds.len() + h.tags.len()).map(|e| (Target::ReplaceEncoding(e), false)));
+        }
+    }
     v
 }
 
@@ -856,6 +942,49 @@ pub fn apply_target(c: &mut Cram, ci: usize, t: Target, which: usize, explicit: 
             if let Some(b) = ct.blocks.get_mut(bi) {
                 let ctype = b.ctype;
                 set(format!("block {bi} (type {ctype}) header content id"), true, &mut b.cid);
+            }
+        }
+        Target::ReplaceEncoding(e) => {
+            if let Some(mut h) = ct.blocks.first().and_then(|b| parse_comp_header(&b.data)) {
+                let t = encoding_template(which % ENCODING_TEMPLATES.len(), &ids);
+                let nds = h.ds.len();
+                let name = if e < nds {
+                    let n = format!("data series {}", String::from_utf8_lossy(&h.ds[e].0));
+                    h.ds[e].1 = t;
+                    n
+                } else if let Some(x) = h.tags.get_mut(e - nds) {
+                    let key = [(x.0 >> 16) as u8, (x.0 >> 8) as u8, x.0 as u8];
+                    x.1 = t;
+                    format!("tag {}", String::from_utf8_lossy(&key))
+                } else {
+                    "no such encoding".to_string()
+                };
+                let data = serialise_comp_header(&h);
+                ct.blocks[0].raw_size = data.len() as i32;
+                ct.blocks[0].data = data;
+                return format!("container {ci} encoding of {name} replaced by {}", ENCODING_TEMPLATES[which % ENCODING_TEMPLATES.len()]);
+            }
+        }
+        Target::SeriesValue(bi, vi) => {
+            let series = ct.blocks.first().and_then(|b| parse_comp_header(&b.data)).map(|h| integer_series_ids(&h)).unwrap_or_default();
+            let n_records = ct.n_records;
+            if let Some(b) = ct.blocks.get_mut(bi) {
+                if let Some(offs) = itf8_offsets(&b.data) {
+                    if let Some(&at) = offs.get(vi) {
+                        let (cur, n) = read_itf8(&b.data, at).unwrap_or((0, 1));
+                        // "ids" for a record-level value: the record count of the container and its neighbours
+                        let counts = [n_records, n_records.wrapping_sub(1)];
+                        let mut x = cur;
+                        let name = series.iter().find(|s| s.0 == b.cid).map(|s| s.1.clone()).unwrap_or_default();
+                        let v = explicit.unwrap_or_else(|| struct_value(which, cur, &counts));
+                        x = { let _ = x; v };
+                        let mut enc = Vec::new();
+                        write_itf8(&mut enc, x);
+                        b.data.splice(at..at + n, enc);
+                        b.raw_size = b.data.len() as i32;
+                        return format!("container {ci} data series {name} (external block {bi}) value #{vi}: {cur} -> {x}");
+                    }
+                }
             }
         }
     }
